@@ -85,6 +85,43 @@ class K(icontract.DBC):
         pt()
         return x * 10
 
+TASKS = {}
+async def _spawn(self, calls):
+    # runs inside the BODY of a public method of an invariant class: the children copy the context *now*
+    loop = asyncio.get_running_loop()
+    kids = []
+    for lab, coro in calls:
+        t = loop.create_task(coro)
+        TASKS[lab] = t
+        kids.append(t)
+    await asyncio.gather(*kids, return_exceptions=True)
+    return 0
+K.spawn = _spawn
+icontract.invariant(lambda self: self.ok is True, error=ViolInv)(K)  # re-decorate so that spawn gets the invariant wrapper
+
+async def g_base(x, tag):
+    LOG.append((tag, "gbase"))
+    if SUSP["pre"]:
+        await Tick()
+    return x > 100
+async def g_child(x, tag):
+    LOG.append((tag, "gchild"))
+    if SUSP["pre"]:
+        await Tick()
+    return x >= 0
+class WB(icontract.DBC):
+    @icontract.require(lambda self, x, tag: g_base(x, tag), error=lambda: Viol())
+    async def put(self, x, tag):
+        return x
+class WC(WB):
+    # weakens the precondition: a second ("require else") group
+    @icontract.require(lambda self, x, tag: g_child(x, tag), error=lambda: Viol())
+    async def put(self, x, tag):
+        LOG.append((tag, "body"))
+        if SUSP["body"]:
+            await Tick()
+        return x * 10
+
 def s_pre(x, tag):
     pt()
     LOG.append((tag, "pre"))
@@ -125,6 +162,9 @@ TASK_CALLS = {
     "am_same:viol+pass": [("am0", -1), ("am0", 1)],
     "am_two:pass+viol": [("am0", 1), ("am1", -1)],
     "af+am:pass+viol": [("af", 1), ("am0", -1)],
+    "put:second_group+first_group": [("put", 5), ("put", 200)],
+    "put:first_group+viol": [("put", 200), ("put", -5)],
+    "put:second+second": [("put", 5), ("put", 7)],
 }
 TASK_CALLS3 = {
     "af:pass+viol+pass": [("af", 1), ("af", -1), ("af", 2)],
@@ -132,7 +172,7 @@ TASK_CALLS3 = {
     "am_same:pass+viol+pass": [("am0", 1), ("am0", -1), ("am0", 2)],
     "mixed:af+am0+am1": [("af", -1), ("am0", 1), ("am1", -1)],
 }
-CTX_MODES = ["fresh", "after_parent", "parent_participates", "after_parent_violation"]
+CTX_MODES = ["fresh", "after_parent", "parent_participates", "after_parent_violation", "spawned_from_method_body"]
 
 
 def task_scenarios(tier):
@@ -161,6 +201,8 @@ def get_ns():
 def call_coro(ns, objs, kind, x, tag):
     if kind == "af":
         return ns["af"](x, tag)
+    if kind == "put":
+        return objs[2].put(x, tag)
     return objs[int(kind[2])].am(x, tag)
 
 
@@ -170,7 +212,7 @@ def task_alone(ns, kind, x, tag, susp):
         for k in ns["SUSP"]:
             ns["SUSP"][k] = k in susp
         del ns["LOG"][:]
-        objs = [ns["K"](), ns["K"]()]
+        objs = [ns["K"](), ns["K"](), ns["WC"]()]
         try:
             r = ("ret", core.run_coro(call_coro(ns, objs, kind, x, tag)))
         except Exception as e:
@@ -196,7 +238,15 @@ def check_task_scenario(sc, acc, budget):
         del ns["LOG"][:]
         parent = contextvars.Context()
         # the objects are built in a throw-away context so that the parent context is pristine unless the mode says otherwise
-        objs = contextvars.Context().run(lambda: [ns["K"](), ns["K"]()])
+        objs = contextvars.Context().run(lambda: [ns["K"](), ns["K"](), ns["WC"]()])
+        if mode == "spawned_from_method_body":
+            # the participants are spawned from INSIDE the body of a public method of an invariant class (a third object):
+            # their contexts are copies of the parent's context while it holds the mark of that object
+            spawner = contextvars.Context().run(ns["K"])
+            ns["TASKS"].clear()
+            calls = [(lab, call_coro(ns, objs, kind, x, lab)) for lab, (kind, x) in zip(labels, cl)]
+            ns["TASKS"]["P"] = loop.create_task(spawner.spawn(calls), context=parent)
+            return ns["TASKS"]
         if mode == "after_parent":
             # the parent executes contracted code to completion BEFORE spawning tasks that copy its context
             parent.run(lambda: core.run_coro(ns["af"](5, "P")))
